@@ -291,6 +291,22 @@ def commitAuto (n : Nat) (t : Trie) (ops : List Op) : Outcome Trie :=
 
 end Canopy.Smt
 
+/-! ## store wiring of the root (`Store.Root()`, `Store.Copy()`) -/
+namespace Canopy.Smt
+
+/-- `Store.Root()`: the cached state-commitment object if there is one (`s.sc != nil`), otherwise the tree committed
+from the pending state operations on top of the last committed tree -/
+def storeRootTree (n : Nat) (cached : Option Trie) (base : Trie) (pending : List Op) : Outcome Trie :=
+  match cached with
+  | some t => .ok t
+  | none => commitAuto n base pending
+
+/-- what `Store.Copy()` hands to the clone as cached commitment: nothing, unless the composite literal of `Copy` carries
+the field `sc` over (generated fact `copyCarriesCommitment`) -/
+def copyCached (carriesSc : Bool) (cached : Option Trie) : Option Trie := if carriesSc then cached else none
+
+end Canopy.Smt
+
 /-! ## specification predicates (used by the theorems in `Props/C08.lean`, `Props/C16.lean`) -/
 namespace Canopy.Smt
 
